@@ -7,7 +7,11 @@ QUIT and observes client byte streams, the master's exit status and time, /proc,
 address, the pid file and the unix socket file.  Two further dimensions: the graceful timeout in force
 was set by a reload (config file rewritten + HUP before the requests start), and a worker whose
 `worker_connections` slots are all busy with one more client connected when the signal arrives.
+Two more moments of a worker's life at which the stop signal arrives: the worker has already decided, of its own accord, to stop
+after the request it is serving (it reached `max_requests`) - and the worker has not finished booting (it is still importing the
+application: at start-up, or as the new pool of a reload).
 """
+import re
 import json
 import os
 import signal
@@ -22,10 +26,51 @@ RULE = ("scenario = (worker class in {sync,gthread,gevent,eventlet}, signal in {
         "graceful_timeout, set of simultaneously established connection phases {idle, partial-head, app-running, "
         "partial-response, keepalive-idle}, application duration class {finishes, overruns, never}, graceful_timeout "
         "raised / lowered by a reload before the requests start, worker_connections exhausted plus one more connected "
-        "client at the signal); distinct = scenario tuple; non-trivial = at least one in-flight phase")
+        "client at the signal, the request in flight is the one that took its worker to max_requests, the signal arrives while "
+        "the workers (of the start-up / of a reload) are importing the application); distinct = scenario tuple; non-trivial = at "
+        "least one in-flight phase or a worker that is still booting")
 
 PHASES = ["idle", "partial", "app", "stream", "keepalive"]
 SIGS = {"TERM": signal.SIGTERM, "INT": signal.SIGINT, "QUIT": signal.SIGQUIT}
+
+
+# The test application with an import that takes as long as the harness wants: while the file `slow-import` exists next to it, the
+# module reports "importing" in the phase log and then waits for `release-import` (at most 40 s) before it finishes loading.
+SLOW_IMPORT_TAIL = r'''
+
+def _slow_import():
+    if not os.path.exists(os.path.join(HERE, "slow-import")):
+        return
+    _phase("importing")
+    d = _wait_release("import", 40.0)
+    if d:
+        time.sleep(d)
+    _phase("imported")
+
+_slow_import()
+'''
+
+
+def importing_workers(srv):
+    """Live children of the master that have reported that they are importing the application and have not finished."""
+    state = {}
+    for _, pid, m in srv.phases():
+        if m in ("importing", "imported"):
+            state[pid] = m
+    live = set(srv.worker_pids())
+    return sorted(p for p, m in state.items() if m == "importing" and p in live)
+
+
+def wait_importing(e4, srv, n, timeout):
+    """n live workers inside the import of the application (None: not reached - the master is gone, or time is up)."""
+    t0 = time.monotonic()
+    while time.monotonic() - t0 < timeout and e4.alive(srv.master_pid):
+        srv.reap()
+        w = importing_workers(srv)
+        if len(w) >= n:
+            return w
+        time.sleep(0.03)
+    return None
 
 
 def client_idle(e4, srv, res, ev):
@@ -139,17 +184,29 @@ def run_scenario(run, e4, sc):
         settings["threads"] = 6
     if sc.get("worker_connections"):
         settings["worker_connections"] = sc["worker_connections"]
+    if sc.get("max_requests"):
+        settings["max_requests"] = sc["max_requests"]
+    boot = sc.get("during_boot")            # None | "start" | "reload": the signal arrives while workers import the application
     workers = max(2, nblock + 1) if wc == "sync" else 2
     workers = sc.get("workers") or workers
-    srv = e4.Server("c04", worker_class=wc, workers=workers, settings=settings, bind=sc["bind"])
+    srv = e4.Server("c04", worker_class=wc, workers=workers, settings=settings, bind=sc["bind"],
+                    app_source=(e4.APP_SOURCE + SLOW_IMPORT_TAIL) if boot else None)
+    slow_flag = os.path.join(srv.dir, "slow-import")
     settings["pidfile"] = os.path.join(srv.dir, "g.pid")
     srv.write_conf(pidfile=settings["pidfile"])
     lag = e4.LagProbe()
     lag.start()
     info = {}
     try:
+        if boot == "start":
+            open(slow_flag, "w").close()
         srv.start()
-        w = srv.wait_workers(workers, 25)
+        if boot == "start":
+            # the pool of the start-up: every worker is forked and has reported, from inside the application module, that it is
+            # being imported (the pid file and the listener exist before the first fork)
+            w = wait_importing(e4, srv, workers, 25)
+        else:
+            w = srv.wait_workers(workers, 25)
         if not w or not srv.wait_listening(5):
             return v, "server did not boot: %s" % srv.stderr()[-300:], info
         if not os.path.exists(settings["pidfile"]):
@@ -182,20 +239,27 @@ def run_scenario(run, e4, sc):
             threads.append(threading.Thread(target=client_request, args=(e4, srv, res, "stream", "/stream/s" + tag, busy_addr)))
         if "keepalive" in phases:
             threads.append(threading.Thread(target=client_keepalive, args=(e4, srv, res, ev)))
+        for _ in range(max(0, sc.get("max_requests", 0) - 1) if sc.get("warmup") else 0):
+            # (one worker: the requests it answers before the one that takes it to max_requests)
+            if e4.request(srv.addr, "/pid", timeout=10)["outcome"] != "ok":
+                return v, "a request before the one under test was not answered", info
         for t in threads:
             t.daemon = True
             t.start()
         # establish every phase
         ok = True
+        holder = {}
         for p in phases:
             if p == "idle" and sc.get("idle_last"):
                 continue
             if p in ("idle", "partial", "keepalive"):
                 ok = ok and ev[p].wait(10)
             elif p == "app":
-                ok = ok and srv.wait_phase("entered a" + tag, 10) is not None
+                holder[p] = srv.wait_phase("entered a" + tag, 10) if ok else None
+                ok = ok and holder[p] is not None
             elif p == "stream":
-                ok = ok and srv.wait_phase("first-chunk s" + tag, 10) is not None
+                holder[p] = srv.wait_phase("first-chunk s" + tag, 10) if ok else None
+                ok = ok and holder[p] is not None
         if ok and idle_thread is not None and sc.get("idle_last"):
             # the idle client connects only now, when every other connection is established: with worker_connections equal to
             # their number it is the one client too many (accepted by a worker that has no slot for it, or left in the backlog)
@@ -210,7 +274,27 @@ def run_scenario(run, e4, sc):
         if not ok:
             return v, "could not establish phases %s: %s" % (phases, {k: r.get("err") for k, r in res.items() if isinstance(r, dict)}), info
         time.sleep(0.15)
+        if sc.get("max_requests"):
+            # every request in flight is the one with which its worker reached max_requests: the worker has announced that it stops
+            # after this request, before the master says anything
+            announced = set(int(x) for x in re.findall(r"\[(\d+)\] \[INFO\] Autorestarting worker", srv.error_log()))
+            if not holder or not all(pid in announced for pid in holder.values()):
+                return v, "the workers holding the requests %s had not announced their own retirement (%s)" % (
+                    holder, sorted(announced)), info
+            info["self_retiring_workers"] = len(set(holder.values()))
         workers_before = srv.worker_pids()
+        if boot == "reload":
+            # a reload whose new workers are still importing the application when the stop signal arrives (the old pool, with
+            # whatever it holds, is retired by the same reload)
+            open(slow_flag, "w").close()
+            srv.signal(signal.SIGHUP)
+            neww = wait_importing(e4, srv, workers, 25)
+            if not neww:
+                return v, "the new pool of the reload did not start importing: %s" % srv.stderr()[-300:], info
+            workers_before = sorted(set(workers_before) | set(srv.worker_pids()))
+        elif boot == "start":
+            if len(importing_workers(srv)) < workers:
+                return v, "the workers had finished importing before the signal", info
         if sc.get("retire"):
             # the workers holding the requests are first retired (reload / TTOU) and only then the server is told to stop
             srv.signal(signal.SIGHUP if sc["retire"] == "HUP" else signal.SIGTTOU)
@@ -232,6 +316,10 @@ def run_scenario(run, e4, sc):
         elif dur == "overruns":
             srv.release("a" + tag, graceful + 2.5)
             srv.release("s" + tag, graceful + 2.5)
+        if boot:
+            info["import_ends"] = sc.get("import_ends")
+            if sc.get("import_ends") is not None:
+                srv.release("import", sc["import_ends"])        # the import completes that long after the signal
         st = srv.wait_exit(srv.master_pid, graceful + 12)
         t_exit = time.monotonic()
         info["exit_after"] = round(t_exit - t_sig, 2) if st else None
@@ -277,8 +365,10 @@ def run_scenario(run, e4, sc):
                     # the threaded worker's quick exit ends in sys.exit(): the interpreter then waits for the handler threads that
                     # are still inside the application
                     mech = "quick-shutdown-waits-for-busy-handler-threads/gthread"
-                v.append((mech, "%s: master exited %.2f s after the signal, limit %.1f (graceful_timeout=%d)" % (
-                    signame, t_exit - t_sig, limit, graceful)))
+                v.append((mech, "%s: master exited %.2f s after the signal, limit %.1f (graceful_timeout=%d)%s" % (
+                    signame, t_exit - t_sig, limit, graceful,
+                    ", signal sent while the workers of the %s were importing the application, no request in flight" % boot
+                    if boot and not phases else "")))
         # ---- client side -----------------------------------------------------------------------
         for t in threads:
             t.join(3)
@@ -286,6 +376,9 @@ def run_scenario(run, e4, sc):
             run.count("graceful_%s_by_reload_checks" % ("raised" if sc["reload_graceful"] > sc["graceful"] else "lowered"))
         if sc.get("idle_last") and sc.get("worker_connections"):
             run.count("pool_full_at_stop_checks/" + wc)
+        if boot and timing_inconclusive is None:
+            run.count("stop_while_workers_import_checks/%s/%s" % (boot, "graceful" if signame == "TERM" else "quick"))
+            run.count("stop_while_workers_import_checks/" + wc)
         for p in phases:
             r = res.get(p)
             if r is None:
@@ -311,11 +404,14 @@ def run_scenario(run, e4, sc):
                 if not e4.complete_response(data) or not e4.body_of(data).endswith(b"|END") or e4.status_of(data) != 200:
                     v.append(("in-flight-request-not-answered/" + p,
                               "%s worker, phase %s: request in progress at TERM (application finishes %.1fs later, graceful "
-                              "timeout %ds, worker timeout %ss) got %r (%s)" % (wc, p, sc.get("app_delay", 0.3), graceful,
-                                                                              settings["timeout"], data[:120],
-                                                                              r.get("outcome") or r.get("err"))))
+                              "timeout %ds, worker timeout %ss%s) got %r (%s)" % (
+                                  wc, p, sc.get("app_delay", 0.3), graceful, settings["timeout"],
+                                  ", the request with which the worker reached max_requests=%d" % sc["max_requests"]
+                                  if sc.get("max_requests") else "", data[:120], r.get("outcome") or r.get("err"))))
                 else:
                     run.count("in_flight_answered")
+                if sc.get("max_requests"):
+                    run.count("self_retiring_worker_in_flight_checks/" + wc)
                 if "timeout" in sc:
                     # the worker timeout (heartbeat supervision) is not the graceful timeout: disabled (0), or shorter than both the
                     # graceful timeout and the request, it has no say in how long a stopping server waits for a request
@@ -388,6 +484,33 @@ def scenarios(tier, seed):
     for wc in classes[1:]:
         out.append({"class": wc, "signal": "TERM", "bind": r4.choice(["tcp", "unix"]), "graceful": 8, "timeout": 2,
                     "phases": ["app", "stream"], "duration": "finishes", "app_delay": r4.choice([3.2, 3.6])})
+    # the request in flight at TERM is the one with which its worker reached max_requests: that worker has already decided to
+    # stop after it (own decision, no signal yet) when the master's TERM arrives.  A single worker that has answered
+    # max_requests - 1 requests before and holds one request; for sync workers (one connection at a time) also several workers
+    # whose first request is their last.  (A threaded or green worker that has reached max_requests with further connections
+    # accepted but not yet served is C18's subject - known findings there - so those classes hold exactly one connection here.)
+    r5 = rng_for(seed, "c04-self-retiring")
+    for wc in classes:
+        if wc == "sync" and r5.random() < 0.5:
+            out.append({"class": wc, "signal": "TERM", "bind": r5.choice(["tcp", "unix"]), "graceful": 6, "max_requests": 1,
+                        "phases": ["app", "stream"], "duration": "finishes", "app_delay": r5.choice([1.0, 1.5, 2.0])})
+        else:
+            out.append({"class": wc, "signal": "TERM", "bind": r5.choice(["tcp", "unix"]), "graceful": 6, "workers": 1,
+                        "max_requests": r5.choice([1, 2, 3]), "warmup": True, "phases": [r5.choice(["app", "stream"])],
+                        "duration": "finishes", "app_delay": r5.choice([1.0, 1.5, 2.0])})
+    # the stop signal arrives while the workers are still importing the application (no request anywhere): the pool of the
+    # start-up, or the new pool of a reload; the import ends shortly after the signal, or not within the scenario.  A quick
+    # shutdown has nothing to wait for; a graceful one ends with the graceful timeout at the latest
+    r6 = rng_for(seed, "c04-during-boot")
+    for wc in classes:
+        out.append({"class": wc, "signal": r6.choice(["INT", "QUIT"]), "bind": r6.choice(["tcp", "unix"]), "graceful": 12,
+                    "phases": [], "duration": "never", "during_boot": "start", "import_ends": r6.choice([None, 0.5, 1.5])})
+    for wc in (classes if tier == "thorough" else [r6.choice(classes)]):
+        out.append({"class": wc, "signal": r6.choice(["INT", "QUIT"]), "bind": r6.choice(["tcp", "unix"]), "graceful": 12,
+                    "phases": [], "duration": "never", "during_boot": "reload", "import_ends": r6.choice([None, 0.5, 1.5])})
+    for wc in (classes if tier == "thorough" else [r6.choice(classes)]):
+        out.append({"class": wc, "signal": "TERM", "bind": r6.choice(["tcp", "unix"]), "graceful": 3, "phases": [],
+                    "duration": "never", "during_boot": r6.choice(["start", "reload"]), "import_ends": r6.choice([None, 1.0])})
     if tier == "thorough":
         for s2 in range(5):
             r2 = rng_for(seed, "c04-thorough", s2)
@@ -416,14 +539,16 @@ def shard(sh):
             break
         run.count("retries_after_inconclusive")
     run.case(json.dumps({k: sc.get(k) for k in ("class", "signal", "bind", "phases", "duration", "graceful", "partial_delay", "busy_on", "retire", "pidfile_garbage",
-                                                 "reload_graceful", "worker_connections", "workers", "timeout")}, sort_keys=True))
+                                                 "reload_graceful", "worker_connections", "workers", "timeout", "max_requests", "warmup",
+                                                 "during_boot", "import_ends")}, sort_keys=True))
     run.count("scenarios")
     run.count("class/" + sc["class"])
     run.count("signal/" + sc["signal"])
     run.count("bind/" + sc["bind"])
     for mech, summary in v:
         run.violation(mech, summary + " | scenario=%s info=%s" % ({k: sc[k] for k in ("class", "signal", "bind", "phases", "duration", "graceful", "reload_graceful", "worker_connections",
-                                                                         "workers", "timeout") if k in sc}, info), sc)
+                                                                         "workers", "timeout", "max_requests", "warmup", "during_boot",
+                                                                         "import_ends") if k in sc}, info), sc)
     if reason is not None and not v:
         if "scheduling lag" in reason:
             run.count("cells_skipped_for_scheduling_lag")      # measured lag made the wall-clock judgement unsafe, three times
@@ -440,13 +565,21 @@ def main(tier, seed):
                 "cell/partial/sync/TERM", "cell/app/gthread/TERM", "cell/stream/gevent/TERM", "cell/app/eventlet/TERM",
                 "two_listener_in_flight_checks", "graceful_raised_by_reload_checks", "graceful_lowered_by_reload_checks",
                 "pool_full_at_stop_checks/eventlet", "worker_timeout_disabled_in_flight_checks",
-                "worker_timeout_below_graceful_in_flight_checks")
+                "worker_timeout_below_graceful_in_flight_checks",
+                "self_retiring_worker_in_flight_checks/sync", "self_retiring_worker_in_flight_checks/gthread",
+                "self_retiring_worker_in_flight_checks/gevent", "self_retiring_worker_in_flight_checks/eventlet",
+                "stop_while_workers_import_checks/start/quick", "stop_while_workers_import_checks/reload/quick",
+                "stop_while_workers_import_checks/sync", "stop_while_workers_import_checks/gthread",
+                "stop_while_workers_import_checks/gevent", "stop_while_workers_import_checks/eventlet")
     scs = scenarios(tier, seed)
     shards = [{"scenario": sc, "seed": seed, "tier": tier} for sc in scs]
     run.assumptions = [
         "slack: master exit is late only beyond graceful_timeout (TERM) or 2 s (INT/QUIT) plus 3 s, and only when the measured scheduling lag is below 0.5 s",
         "phases are established by handshake (phase log / release files) before the signal is sent; a connection that is idle or keep-alive idle carries no request in progress",
         "TLS, reuse_port and systemd socket activation are not part of the scenarios",
+        "a worker 'has reached max_requests' when its own log line announcing the restart after the current request is in the error "
+        "log before the signal is sent; a worker 'is importing the application' from the moment the application module reports so in "
+        "the phase log (that is after the worker installed its own signal handlers) until the module has been loaded",
         "worker timeout cells: `timeout` 0 (supervision disabled) for every class; `timeout` 2 s below graceful_timeout 8 s with a request "
         "that ends 3.2-3.6 s after TERM only for gthread / gevent / eventlet (a sync worker busy for longer than `timeout` is killed by "
         "the supervision itself, before any shutdown - C11's subject)",
